@@ -2,7 +2,7 @@
 
 Overlay syntax (lines starting with `//@`):
 
-  //@ unit <name> property=<id>[,<id>..] [min_obligations=<n>]
+  //@ unit <name> property=<id>[,<id>..] [min_obligations=<n>] [rlimit=<n>]
   //@ fn <file> <Type::name|name> [ret=<binder>] [rules=R1,R9,..] [trait=<Trait>] [rename=<new>] [novac]
   //@ block <file> <Type::name|name> name=<synthetic fn name>      (followed by `first`, `last`, `params`, `tail` sections)
   //@ item <file> <struct|enum|const|static|type> <Name> [rules=..]
@@ -705,6 +705,7 @@ def assemble(overlay_path):
             meta["unit"] = pos[0]
             meta["properties"] = opts.get("property", "").split(",")
             meta["min_obligations"] = int(opts.get("min_obligations", 1))
+            if opts.get("rlimit"): meta["rlimit"] = int(opts["rlimit"])   # Verus --rlimit for units with one large query (default 10)
         elif d in ("fn", "block", "item"):
             if cur is not None: raise ExtractError(f"{overlay_path}:{i+1}: nested directive")
             flush_raw(raw); raw = []
